@@ -153,6 +153,16 @@ def credit_return(ctx):
         after = [norm(s) for s in blk[blk.index(stmt) + 1:]]
         R.check('self.peer_credits = self.peer_max_credits' in after, rule, f'{LE}.on_pdu | count reset', 'peer_credits reset to max after returning', 'peer credit count is not reset after credits are returned', p.loc(c))
     dec = [n for n in walk_local(op) if isinstance(n, ast.AugAssign) and dotted(n.target) == 'self.peer_credits']
+    # every received frame reaches the accounting, whatever else the handler decides about it
+    class Acc(paths.Domain):
+        def assume(self, atom, truth, v):
+            if 'self.peer_credits' in norm(atom) and '0' in norm(atom):
+                return (True,)
+            return (v,)
+    res_acc = paths.run(op, Acc(), False)
+    early = [' '.join(w) for k, st in res_acc.items() if not k.startswith('raise') for v, w in st.items() if not v]
+    R.check(not early, rule, f'{LE}.on_pdu | every frame accounted', 'no exit of on_pdu precedes the peer-credit accounting',
+            'a received frame can be dropped before it is charged to the peer\'s credits (e.g. while no sink is installed): the sender has spent a credit the receiver never counts, credits are never returned and the channel deadlocks', p.loc(op), early[:2])
     R.check(len(dec) == 1 and isinstance(dec[0].op, ast.Sub) and norm(dec[0].value) == '1', rule, f'{LE}.on_pdu | one credit per frame', 'peer_credits -= 1 per received frame', 'received frames are not charged one credit each', p.loc(op))
     thr = [norm(n.value) for n in walk_local(init) if isinstance(n, ast.Assign) and dotted(n.targets[0]) == 'self.peer_credits_threshold']
     R.check(thr == ['self.peer_max_credits // 2'], rule, f'{LE}.__init__ | threshold <= max', 'threshold = peer_max_credits // 2 (< max, so credits are returned before they run out for max >= 1)', f'threshold = {thr}', p.loc(init))
